@@ -19,6 +19,7 @@ import (
 
 	"verif/explore"
 	"verif/harness/c03"
+	"verif/harness/c06"
 	"verif/harness/hx"
 	"verif/runner"
 	"verif/vs"
@@ -352,6 +353,15 @@ func (g guardFilter) Accept(o metav1.Object) bool {
 		return false
 	}
 	return g.inner.Accept(o)
+}
+
+// Equals makes the guard exactly as comparable as the filter it wraps (a cache that consults FiltersEqual on
+// refilter must see Null == Null, Labels == Labels, ... and FN != FN, as it would without the guard).
+func (g guardFilter) Equals(other filter.Filter) bool {
+	if og, ok := other.(guardFilter); ok {
+		other = og.inner
+	}
+	return filter.FiltersEqual(g.inner, other)
 }
 
 type inst struct {
@@ -750,6 +760,8 @@ func Property(id string) runner.Property {
 			if id == "C02" {
 				// public path: the controller and its publishers distribute exactly those events (deviation-bounded)
 				out = append(out, c03.C02Controller(tier)...)
+				// filtered subscriptions: replaying their events over the content read at readiness gives their cache
+				out = append(out, c06.C02FilterScenarios(tier)...)
 			}
 			return out
 		},
